@@ -1051,7 +1051,7 @@ Example ex_output_hypotheses :
     ROk (mk_unb 1000 ex_asset ex_vbf ex_abf) /\
   unblind_with_key toy (out_of_blinded ex_bl ex_script ex_E []) ex_esk = RErr /\
   unblind_with_key toy (out_of_blinded ex_bl [x00; x14; xab] ex_E []) ex_rsk = RErr.
-Proof. repeat split; vm_compute; reflexivity. Qed.
+Proof. repeat (apply conj; [vm_compute; reflexivity|]). vm_compute; reflexivity. Qed.
 
 Definition ex_ka : bytes := repeat x41 32.
 Definition ex_kt : bytes := repeat x42 32.
@@ -1077,7 +1077,7 @@ Example ex_issuance_hypotheses :
   unblind_issuance toy ex_in [ex_ka; ex_kt] =
     ROk (mk_unb 7 ex_aid ex_vbf zero32, Some (mk_unb 1 ex_tid ex_vbf zero32)) /\
   unblind_issuance toy ex_in [ex_kt; ex_kt] = RErr.
-Proof. repeat split; vm_compute; reflexivity. Qed.
+Proof. repeat (apply conj; [vm_compute; reflexivity|]). vm_compute; reflexivity. Qed.
 
 (* the theorems apply to the instance *)
 Example ex_theorem_applies :
